@@ -22,7 +22,7 @@ func init() {
 		Run:      runC05,
 		Examples: true,
 		Meta: core.PropertyMeta{
-			Explanation: "M1: every call entry point takes one fresh id from getMsgID (an atomic increment that nothing else touches) per invocation, outside the send loop, and all messages of the invocation share that one metadata. M2: enqueue registers the router under the request's id before the request can reach the queue or the error route. M3: every access to the router map holds responseMut. M4: each delivery through a router and the deletion of that router (for non-streaming routers) happen in one critical section, the deletion being skipped only on the streaming edge, so a second message with the same id on the same node finds no router. M5: the reader routes under the id of the message it just received; WrapMessage writes only the status into the echoed metadata and nothing on the server writes MessageID/Method; every generated two-way handler echoes in.Metadata (or a clone). M6: a non-streaming reply channel has capacity >= the number of enqueues that can register it, so deliveries never block and late replies die in the buffer. M7: every response names the node of the producing channel.",
+			Explanation: "M1: every call entry point takes one fresh id from getMsgID (an atomic increment that nothing else touches) per invocation, outside the send loop, and all messages of the invocation share that one metadata. M2: enqueue registers the router under the request's id before the request can reach the queue or the error route. M3: every access to the router map holds responseMut. M4: each delivery through a router and the deletion of that router (for non-streaming routers) happen in one critical section, the deletion being skipped only on the streaming edge, so a second message with the same id on the same node finds no router. M5: the reader routes under the id of the message it just received; WrapMessage writes only the status into the echoed metadata and nothing on the server writes MessageID/Method; every generated two-way handler echoes in.Metadata (or a clone). M6: a non-streaming reply channel has capacity >= the number of enqueues that can register it, so deliveries never block and late replies die in the buffer. M7: every response names the node of the producing channel. M10: no node twice in a configuration (C14-G2 re-run). M11: sender-side answers are routed in the sender's own iteration under the dequeued request's id (C07-E3 re-run).",
 			NotDecided:  "Cross-talk caused by the transport; collisions of the 64-bit counter; that a call observes the *content* of its own reply (run time).",
 			Trusted:     append([]string{"sync/atomic.AddUint64 returns distinct values", "gRPC keeps messages of one stream separate from other streams"}, commonTrust...),
 		},
